@@ -96,7 +96,14 @@ theorem C11_table_eq (t u : Table Int) (hb : t.buckets = u.buckets)
   · intro h; rw [h]
   · intro h; exact zip_right_inj _ _ _ (by omega) (by omega) h
 
+/-- `t == u` for tables whose key rows differ -- another key set, or the same bucket layout with some other key of the
+same bucket in one place -- is false, whatever the values -/
+theorem C11_table_eq_other_keys (t u : Table Int) (hb : t.buckets ≠ u.buckets) : tableEq t u = false := by
+  unfold tableEq
+  simp [hb]
+
 /- non-vacuity -/
+example : tableEq (⟨[[3], [10, 7]], .inr [[1], [2, 3]], 3⟩ : Table Int) ⟨[[3], [13, 7]], .inr [[1], [2, 3]], 3⟩ = false := by decide
 example : (build [10, 19, 20] (.inr [1, 2, 3]) 3 [1, 0, 2]).map (fun t => items (addNum t 5)) = some [(19, 7), (10, 6), (20, 8)] := by decide
 example : (build [10, 19, 20] (.inr [1, 2, 3]) 3 [1, 0, 2]).bind (fun t => (addTable t (likeWith t 1)).map items) = some [(19, 3), (10, 2), (20, 4)] := by decide
 
